@@ -223,7 +223,18 @@ func enShared(items []enCat, cat []enCat) []core.Finding {
 }
 
 func runC17(c *core.Ctx) error {
-	res, err := tlc.Run(tlc.Opts{Module: "EnumRule", Cfg: "EnumRule_graph.cfg", Workers: 8, DumpDot: true})
+	for _, cfg := range []string{"EnumRule_graph.cfg", "EnumRule_graph2.cfg"} {
+		if err := runC17cfg(c, cfg); err != nil {
+			return err
+		}
+	}
+	c.Set("rule", "token paths of the TLC-dumped EnumRule automaton (<= 3 items from two 12-scalar halves of a 19-scalar catalogue): access sequence of every state followed by every token sequence <= k, plus seeded random walks; printed to text and replayed on enum.New (Check, Values) and, per distinct accepted item list, on schemas using the rule by name vs inline for every catalogue value. distinct_nontrivial = distinct (state, token) edges crossed")
+	c.Assume = append(c.Assume, "annotation entries (no value) returned by Values() are not counted as scalars", "the empty list and annotations before '[' have no verdict")
+	return nil
+}
+
+func runC17cfg(c *core.Ctx, cfgName string) error {
+	res, err := tlc.Run(tlc.Opts{Module: "EnumRule", Cfg: cfgName, Workers: 8, DumpDot: true})
 	defer res.Cleanup()
 	if err != nil {
 		return err
@@ -231,7 +242,7 @@ func runC17(c *core.Ctx) error {
 	if err := res.MustOK(); err != nil {
 		return err
 	}
-	c.AddTLC("EnumRule_graph.cfg", res)
+	c.AddTLC(cfgName, res)
 	var catRec struct {
 		Cat []enCat `json:"cat"`
 	}
@@ -344,17 +355,15 @@ func runC17(c *core.Ctx) error {
 	for i, e := range edges {
 		if e != 0 {
 			ne++
-			c.Nontrivial(fmt.Sprint("edge:", i))
+			c.Nontrivial(fmt.Sprint(cfgName, " edge:", i))
 		}
 	}
-	c.Set("model_edges_crossed", ne)
-	c.Set("model_edges_total", a.G.NEdge)
-	c.Set("item_lists_checked_named_vs_inline", len(equivSeen))
+	c.Set("model_edges_crossed_"+cfgName, ne)
+	c.Set("model_edges_total_"+cfgName, a.G.NEdge)
+	c.Set("item_lists_checked_named_vs_inline_"+cfgName, len(equivSeen))
 	c.Set("k", k)
 	smp, _ := mkCase(acc[len(acc)-1], a.Run(acc[len(acc)-1]))
 	c.Sample(smp)
-	c.Set("rule", "token paths of the TLC-dumped EnumRule automaton (<= 3 items from a 12-scalar catalogue): access sequence of every state followed by every token sequence <= k, plus seeded random walks; printed to text and replayed on enum.New (Check, Values) and, per distinct accepted item list, on schemas using the rule by name vs inline for every catalogue value. distinct_nontrivial = distinct (state, token) edges crossed")
-	c.Assume = append(c.Assume, "annotation entries (no value) returned by Values() are not counted as scalars", "the empty list and annotations before '[' have no verdict")
 	return nil
 }
 
